@@ -125,6 +125,23 @@ func gen(seed uint64, tier string) Scenario {
 			}
 		}
 	}
+	// a UDP-multicast client (it plays; the scripted server answers SETUP with a group address and a
+	// port pair, and sends to the groups); hash-derived so that no other choice moves
+	if x := core.HS(seed, "c12.mcast", "", 0); x%100 < 8 && sc.Tunnel == "" && sc.Role == "play" {
+		sc.Protocol = "mcast"
+		sc.PortInUse = 0
+		// ... in half of these runs the n-th SETUP answer is hostile in a multicast-specific way
+		if (x>>8)%2 == 0 {
+			k := 2 + int((x>>16)%uint64(sc.Medias)) // OPTIONS, DESCRIBE, SETUP...
+			if sc.Creds {
+				k++
+			}
+			for len(sc.Behaviours) <= k {
+				sc.Behaviours = append(sc.Behaviours, Behaviour{Kind: "normal"})
+			}
+			sc.Behaviours[k] = Behaviour{Kind: "targeted", Arg: int((x >> 24) % (1 << 16))}
+		}
+	}
 	// hash-derived so that no other choice of the scenario moves
 	if core.HS(seed, "c12.yields", "", 0)%100 < 50 {
 		sc.Yields = map[string]core.YieldSpec{}
@@ -347,7 +364,26 @@ func (fs *fakeServer) serveRTSP(nc net.Conn, br *bufio.Reader, raw *simnet.Conn)
 				break
 			}
 			out := headers.Transport{Profile: th.Profile, Delivery: ptrOf(headers.TransportDeliveryUnicast), Mode: th.Mode}
-			if th.Protocol == headers.TransportProtocolTCP {
+			if th.Protocol == headers.TransportProtocolUDP && th.Delivery != nil && *th.Delivery == headers.TransportDeliveryMulticast {
+				// one group per media, one port pair for all (the client filters on the source port,
+				// which it expects to equal the group port)
+				w.Probe("multicast_setup")
+				out.Protocol = headers.TransportProtocolUDP
+				out.Delivery = ptrOf(headers.TransportDeliveryMulticast)
+				grp := fmt.Sprintf("224.1.0.%d", 1+setups%200)
+				out.Destination2 = &grp
+				out.Ports = &[2]int{5000, 5001}
+				out.TTL = ptrOf(uint(127))
+				udpDst = append(udpDst, &net.UDPAddr{IP: net.ParseIP(grp), Port: 5000})
+				if udpSock == nil {
+					if u, err := fs.node.ListenPacket("udp", ":5000"); err == nil {
+						udpSock = u
+						fs.mu.Lock()
+						fs.udp = append(fs.udp, u)
+						fs.mu.Unlock()
+					}
+				}
+			} else if th.Protocol == headers.TransportProtocolTCP {
 				tcp = true
 				out.Protocol = headers.TransportProtocolTCP
 				out.InterleavedIDs = th.InterleavedIDs
@@ -664,6 +700,33 @@ func targeted(res *base.Response, req *base.Request, arg int, w *sys.World) {
 		if th.Unmarshal(res.Header["Transport"]) != nil {
 			return
 		}
+		if th.Delivery != nil && *th.Delivery == headers.TransportDeliveryMulticast {
+			switch arg % 10 {
+			case 0:
+				th.Ports = &[2]int{65535, 65536} // what "port=65535" parses to
+			case 1:
+				th.Ports = nil
+			case 2:
+				th.Destination2 = nil
+			case 3:
+				th.Destination2 = ptrOf("no-such-host.invalid")
+			case 4:
+				th.Destination2 = ptrOf("10.0.0.9") // not a group address
+			case 5:
+				th.Ports = &[2]int{0, 1}
+			case 6:
+				th.Delivery = ptrOf(headers.TransportDeliveryUnicast)
+			case 7:
+				th.Source2 = ptrOf("no-such-host.invalid")
+			case 8:
+				th.Ports = &[2]int{65534, 70000}
+			case 9:
+				th.Destination2 = ptrOf("alias.example") // resolves to a unicast address
+			}
+			res.Header["Transport"] = th.Marshal()
+			w.Fault(fmt.Sprintf("server.targeted.setup.mcast.%d", arg%10))
+			return
+		}
 		switch arg % 12 {
 		case 0:
 			th.ServerPorts = nil
@@ -714,7 +777,7 @@ func run(t *testing.T, sc Scenario) *core.Result {
 	var summary map[string]any
 	res := sys.Run(t, opts, func(w *sys.World) {
 		w.ProbeInit("call_returned_error", "call_returned_ok", "reached_play", "reached_record", "client_terminated_itself", "calls_after_failure",
-			"udp_port_retry", "packets_received", "close_verified")
+			"udp_port_retry", "packets_received", "close_verified", "client_multicast", "multicast_setup", "multicast_packets_received")
 		rootGID := core.GoID()
 		srvNode := w.Net.Node("srv", "10.0.0.1")
 		w.Net.AddHost("alias.example", "10.0.0.1")
@@ -727,7 +790,11 @@ func run(t *testing.T, sc Scenario) *core.Result {
 		fs.wg.Add(1)
 		go fs.serve()
 
-		cliNode := w.Net.Node("cli", "10.0.0.20")
+		cliIP := "10.0.0.20"
+		if sc.Protocol == "mcast" {
+			cliIP = "127.0.0.1" // the client looks for a real interface with its local address (net.Interfaces)
+		}
+		cliNode := w.Net.Node("cli", cliIP)
 		c := &gortsplib.Client{Scheme: "rtsp", Host: "10.0.0.1:8554", ReadTimeout: ms(sc.ReadMS), WriteTimeout: ms(sc.WriteMS),
 			AnyPortEnable: sc.AnyPort, RequestBackChannels: sc.BackChan, UDPSourcePortRange: [2]uint16{20000, 20031}}
 		if sc.Tunnel == "http" {
@@ -741,10 +808,14 @@ func run(t *testing.T, sc Scenario) *core.Result {
 		case "tcp":
 			p := gortsplib.ProtocolTCP
 			c.Protocol = &p
+		case "mcast":
+			p := gortsplib.ProtocolUDPMulticast
+			c.Protocol = &p
+			w.Probe("client_multicast")
 		}
 		sys.WireClient(c, cliNode, w.Net, nil)
 		for i := 0; i < sc.PortInUse; i++ {
-			w.Net.FailListenPacket[fmt.Sprintf("10.0.0.20:%d", 20000+2*int(core.H(sc.Seed, "busy", uint64(i))%16))] = true
+			w.Net.FailListenPacket[fmt.Sprintf(cliIP+":%d", 20000+2*int(core.H(sc.Seed, "busy", uint64(i))%16))] = true
 		}
 		npk := 0
 		c.OnPacketsLost = func(uint64) {}
@@ -904,6 +975,9 @@ func run(t *testing.T, sc Scenario) *core.Result {
 			}
 			if npk > 0 {
 				w.Probe("packets_received")
+				if sc.Protocol == "mcast" {
+					w.Probe("multicast_packets_received")
+				}
 			}
 			if w.Net.StatsCopy()["udp.port_in_use"] > 0 {
 				w.Probe("udp_port_retry")
